@@ -174,19 +174,34 @@ theorem FlushOK.of_soft {p q : Pool} (h : FlushOK p) (hg : q.gathers = p.gathers
     (hs : ∀ (t : Nat) (tk' : PTask), q.tasks[t]? = some tk' → ∃ tk : PTask, p.tasks[t]? = some tk ∧ tk'.soft = tk.soft) :
     FlushOK q := h.frame hg ha (taskFin_of_soft hl hs)
 
+/-! ### no lost wake-up -/
+
+/-- as long as `pool_size` was never assigned: if the semaphore has free slots and none is on its way to a woken
+spawner, nobody is waiting for one -/
+def WakeOK (p : Pool) : Prop :=
+  p.resized = false → ∀ v, p.sem.value = .fin v → 0 < v → grantsL p.sem.waiters = 0 → ∀ w ∈ p.sem.waiters, w.st ≠ .pending
+
+theorem WakeOK.of_eq {p q : Pool} (h : WakeOK p) (hs : q.sem = p.sem) (hr : q.resized = p.resized) : WakeOK q := by
+  intro a v b c d
+  rw [hs] at b d ⊢
+  exact h (hr ▸ a) v b c d
+
 /-- everything but the books of the map semaphores -/
-structure Good0 (cap : Cap) (L : Bool) (p : Pool) : Prop where
+structure Good0 (cap : Cap) (L R : Bool) (p : Pool) : Prop where
   slot : SlotOK cap p
   phase : PhaseOK p
   reg : RegOK p
   grp : GroupsOK p
   life : LifeOK p
   fl : FlushOK p
+  wk : WakeOK p
+  /-- the fixed-size variant (`R = true`): `pool_size` was never assigned -/
+  rz : R = true → p.resized = false
   /-- the strict variant (`L = false`): no task has been lost and no `gather_and_close` call was ever made -/
   ll : L = false → p.lost = false
   al : L = false → ∀ A ∈ p.apis, A.kind.isGac = false
 
-structure Good (cap : Cap) (L : Bool) (p : Pool) : Prop extends Good0 cap L p where
+structure Good (cap : Cap) (L R : Bool) (p : Pool) : Prop extends Good0 cap L R p where
   map : MapOK p
 
 /-- `q` is `p` up to changes that neither move a slot nor put a task (back) into a slot-holding phase -/
@@ -203,6 +218,8 @@ structure Tame0 (p q : Pool) : Prop where
   soft : ∀ (t : Nat) (tk' : PTask), q.tasks[t]? = some tk' → ∃ tk : PTask, p.tasks[t]? = some tk ∧ tk'.soft = tk.soft
   apk : q.apis.map (·.kind) = p.apis.map (·.kind)
   fok : FlushOK p → FlushOK q
+  wok : WakeOK p → WakeOK q
+  rsz : q.resized = p.resized
 
 /-- … and that moves no slot of a map semaphore either -/
 structure Tame (p q : Pool) : Prop extends Tame0 p q where
@@ -272,7 +289,7 @@ theorem getElem?_modify_some {α} (l : List α) (t i : Nat) (f : α → α) (y :
 /-! ### Tame: algebra -/
 
 theorem Tame0.refl (p : Pool) : Tame0 p p :=
-  ⟨rfl, rfl, rfl, rfl, rfl, rfl, rfl, fun h => h, List.Sublist.refl _, fun _ tk' h => ⟨tk', h, rfl⟩, rfl, fun h => h⟩
+  ⟨rfl, rfl, rfl, rfl, rfl, rfl, rfl, fun h => h, List.Sublist.refl _, fun _ tk' h => ⟨tk', h, rfl⟩, rfl, fun h => h, fun h => h, rfl⟩
 
 theorem Tame.refl (p : Pool) : Tame p p :=
   ⟨Tame0.refl p, Nat.le_refl _, fun _ r' h => Or.inl ⟨r', h, MSigLe.refl r'⟩⟩
@@ -280,7 +297,7 @@ theorem Tame.refl (p : Pool) : Tame p p :=
 theorem Tame0.trans {p q r : Pool} (h1 : Tame0 p q) (h2 : Tame0 q r) : Tame0 p r := by
   refine ⟨h2.val.trans h1.val, h2.grants.trans h1.grants, h2.len.trans h1.len, h2.run.trans h1.run,
     h2.can.trans h1.can, h2.fin.trans h1.fin, h2.lost.trans h1.lost, fun h => h2.wnil (h1.wnil h), h2.gfl.trans h1.gfl, ?_,
-    h2.apk.trans h1.apk, fun h => h2.fok (h1.fok h)⟩
+    h2.apk.trans h1.apk, fun h => h2.fok (h1.fok h), fun h => h2.wok (h1.wok h), h2.rsz.trans h1.rsz⟩
   intro t tk'' h
   obtain ⟨tk', hq, e2⟩ := h2.soft t tk'' h
   obtain ⟨tk, hp, e1⟩ := h1.soft t tk' hq
@@ -438,17 +455,21 @@ theorem Tame.map {p q : Pool} (h : Tame p q) (hm : MapOK p) : MapOK q := by
     · exact ha
 
 /-- the two extra clauses of the strict variant, as a bundle -/
-def Strict (L : Bool) (p : Pool) : Prop :=
-  (L = false → p.lost = false) ∧ (L = false → ∀ A ∈ p.apis, A.kind.isGac = false)
+structure Strict (L R : Bool) (p : Pool) : Prop where
+  ll : L = false → p.lost = false
+  al : L = false → ∀ A ∈ p.apis, A.kind.isGac = false
+  rz : R = true → p.resized = false
 
-theorem Good0.strict {cap : Cap} {L : Bool} {p : Pool} (hg : Good0 cap L p) : Strict L p := ⟨hg.ll, hg.al⟩
-theorem Good.strict {cap : Cap} {L : Bool} {p : Pool} (hg : Good cap L p) : Strict L p := ⟨hg.ll, hg.al⟩
+theorem Good0.strict {cap : Cap} {L R : Bool} {p : Pool} (hg : Good0 cap L R p) : Strict L R p := ⟨hg.ll, hg.al, hg.rz⟩
+theorem Good.strict {cap : Cap} {L R : Bool} {p : Pool} (hg : Good cap L R p) : Strict L R p := ⟨hg.ll, hg.al, hg.rz⟩
 
-theorem Strict.of_eq {L : Bool} {p q : Pool} (h : Strict L p) (h1 : q.lost = p.lost) (h2 : q.apis = p.apis) : Strict L q :=
-  ⟨fun hl => by rw [h1]; exact h.1 hl, fun hl => by rw [h2]; exact h.2 hl⟩
+theorem Strict.of_eq {L R : Bool} {p q : Pool} (h : Strict L R p) (h1 : q.lost = p.lost) (h2 : q.apis = p.apis)
+    (h3 : q.resized = p.resized := by rfl) : Strict L R q :=
+  ⟨fun hl => by rw [h1]; exact h.ll hl, fun hl => by rw [h2]; exact h.al hl, fun hr => by rw [h3]; exact h.rz hr⟩
 
-theorem Tame0.good0 {cap : Cap} {L : Bool} {p q : Pool} (h : Tame0 p q) (hg : Good0 cap L p) : Good0 cap L q :=
-  ⟨h.slot hg.slot, h.phase hg.phase, h.reg hg.reg, h.grp hg.grp, h.life hg.life, h.fok hg.fl,
+theorem Tame0.good0 {cap : Cap} {L R : Bool} {p q : Pool} (h : Tame0 p q) (hg : Good0 cap L R p) : Good0 cap L R q :=
+  ⟨h.slot hg.slot, h.phase hg.phase, h.reg hg.reg, h.grp hg.grp, h.life hg.life, h.fok hg.fl, h.wok hg.wk,
+    fun hr => by rw [h.rsz]; exact hg.rz hr,
     fun hl => by rw [h.lost]; exact hg.ll hl,
     fun hl A hA => by
       have hk : A.kind ∈ q.apis.map (·.kind) := List.mem_map.mpr ⟨A, hA, rfl⟩
@@ -456,7 +477,7 @@ theorem Tame0.good0 {cap : Cap} {L : Bool} {p q : Pool} (h : Tame0 p q) (hg : Go
       obtain ⟨B, hB, e⟩ := List.mem_map.mp hk
       rw [← e]; exact hg.al hl B hB⟩
 
-theorem Tame.good {cap : Cap} {L : Bool} {p q : Pool} (h : Tame p q) (hg : Good cap L p) : Good cap L q :=
+theorem Tame.good {cap : Cap} {L R : Bool} {p q : Pool} (h : Tame p q) (hg : Good cap L R p) : Good cap L R q :=
   ⟨h.toTame0.good0 hg.toGood0, h.map hg.map⟩
 
 /-- released flag of a task is preserved along a tame change -/
@@ -472,9 +493,11 @@ theorem tame_of_eq (p q : Pool) (hs : q.sem = p.sem) (ht : q.tasks = p.tasks)
     (h1 : q.running = p.running := by rfl) (h2 : q.cancelledR = p.cancelledR := by rfl)
     (h3 : q.ended = p.ended := by rfl) (h4 : q.lost = p.lost := by rfl)
     (h5 : (flat q.groups).Sublist (flat p.groups) := by exact List.Sublist.refl _)
-    (h6 : q.apis = p.apis := by rfl) (h7 : q.reqs = p.reqs := by rfl) (h8 : q.gathers = p.gathers := by rfl) : Tame p q := by
+    (h6 : q.apis = p.apis := by rfl) (h7 : q.reqs = p.reqs := by rfl) (h8 : q.gathers = p.gathers := by rfl)
+    (h9 : q.resized = p.resized := by rfl) : Tame p q := by
   refine ⟨⟨by rw [hs], by rw [hs], by rw [ht], h1, h2, h3, h4, by rw [hs]; exact fun h => h, h5, ?_, by rw [h6],
-    fun h => h.of_soft h8 h6 (by rw [ht]) (fun t tk' h => by rw [ht] at h; exact ⟨tk', h, rfl⟩)⟩, by rw [h7]; exact Nat.le_refl _, ?_⟩
+    fun h => h.of_soft h8 h6 (by rw [ht]) (fun t tk' h => by rw [ht] at h; exact ⟨tk', h, rfl⟩),
+    fun h => h.of_eq hs h9, h9⟩, by rw [h7]; exact Nat.le_refl _, ?_⟩
   · intro t tk' h; rw [ht] at h; exact ⟨tk', h, rfl⟩
   · intro m r' h; rw [h7] at h; exact Or.inl ⟨r', h, MSigLe.refl r'⟩
 
@@ -484,9 +507,11 @@ theorem tame_of_map (p q : Pool) (f : Req → Req) (hs : q.sem = p.sem) (ht : q.
     (h1 : q.running = p.running := by rfl) (h2 : q.cancelledR = p.cancelledR := by rfl)
     (h3 : q.ended = p.ended := by rfl) (h4 : q.lost = p.lost := by rfl)
     (h5 : (flat q.groups).Sublist (flat p.groups) := by exact List.Sublist.refl _)
-    (h6 : q.apis = p.apis := by rfl) (h8 : q.gathers = p.gathers := by rfl) : Tame p q := by
+    (h6 : q.apis = p.apis := by rfl) (h8 : q.gathers = p.gathers := by rfl) (h9 : q.resized = p.resized := by rfl) :
+    Tame p q := by
   refine ⟨⟨by rw [hs], by rw [hs], by rw [ht], h1, h2, h3, h4, by rw [hs]; exact fun h => h, h5, ?_, by rw [h6],
-    fun h => h.of_soft h8 h6 (by rw [ht]) (fun t tk' h => by rw [ht] at h; exact ⟨tk', h, rfl⟩)⟩, by rw [h7]; simp, ?_⟩
+    fun h => h.of_soft h8 h6 (by rw [ht]) (fun t tk' h => by rw [ht] at h; exact ⟨tk', h, rfl⟩),
+    fun h => h.of_eq hs h9, h9⟩, by rw [h7]; simp, ?_⟩
   · intro t tk' h; rw [ht] at h; exact ⟨tk', h, rfl⟩
   · intro m r' h
     rw [h7, List.getElem?_map] at h
@@ -525,7 +550,7 @@ theorem tame_modTask (p : Pool) (t : Nat) (f : PTask → PTask)
     · exact hs x
     · rfl
   refine ⟨⟨rfl, rfl, by simp [modTask], rfl, rfl, rfl, rfl, fun h => h, List.Sublist.refl _, hsoft, rfl,
-    fun h => h.of_soft rfl rfl (by simp [modTask]) hsoft⟩, Nat.le_refl _,
+    fun h => h.of_soft rfl rfl (by simp [modTask]) hsoft, fun h => h.of_eq rfl rfl, rfl⟩, Nat.le_refl _,
     fun _ r' h => Or.inl ⟨r', h, MSigLe.refl r'⟩⟩
 
 /-- any change confined to the requests (and the ready handles) is tame as far as pool slots, phases, registries,
@@ -534,9 +559,11 @@ theorem tame0_of_eq (p q : Pool) (hs : q.sem = p.sem) (ht : q.tasks = p.tasks)
     (h1 : q.running = p.running := by rfl) (h2 : q.cancelledR = p.cancelledR := by rfl)
     (h3 : q.ended = p.ended := by rfl) (h4 : q.lost = p.lost := by rfl)
     (h5 : (flat q.groups).Sublist (flat p.groups) := by exact List.Sublist.refl _)
-    (h6 : q.apis = p.apis := by rfl) (h8 : q.gathers = p.gathers := by rfl) : Tame0 p q := by
+    (h6 : q.apis = p.apis := by rfl) (h8 : q.gathers = p.gathers := by rfl) (h9 : q.resized = p.resized := by rfl) :
+    Tame0 p q := by
   refine ⟨by rw [hs], by rw [hs], by rw [ht], h1, h2, h3, h4, by rw [hs]; exact fun h => h, h5, ?_, by rw [h6],
-    fun h => h.of_soft h8 h6 (by rw [ht]) (fun t tk' h => by rw [ht] at h; exact ⟨tk', h, rfl⟩)⟩
+    fun h => h.of_soft h8 h6 (by rw [ht]) (fun t tk' h => by rw [ht] at h; exact ⟨tk', h, rfl⟩),
+    fun h => h.of_eq hs h9, h9⟩
   intro t tk' h; rw [ht] at h; exact ⟨tk', h, rfl⟩
 
 theorem tame0_modReq (p : Pool) (m : Nat) (f : Req → Req) : Tame0 p (p.modReq m f) := tame0_of_eq _ _ rfl rfl
@@ -545,7 +572,7 @@ theorem tame0_modReq (p : Pool) (m : Nat) (f : Req → Req) : Tame0 p (p.modReq 
 theorem tame_modReq (p : Pool) (m : Nat) (f : Req → Req)
     (hf : ∀ x, MSigLe (f x) x := by intro x; exact ⟨rfl, rfl, rfl, Nat.le_refl _, fun h => h⟩) : Tame p (p.modReq m f) := by
   refine ⟨⟨rfl, rfl, rfl, rfl, rfl, rfl, rfl, fun h => h, List.Sublist.refl _, fun _ tk' h => ⟨tk', h, rfl⟩, rfl,
-    fun h => h.of_soft rfl rfl rfl (fun _ tk' h => ⟨tk', h, rfl⟩)⟩,
+    fun h => h.of_soft rfl rfl rfl (fun _ tk' h => ⟨tk', h, rfl⟩), fun h => h.of_eq rfl rfl, rfl⟩,
     by simp [modReq], ?_⟩
   intro i r' h
   simp only [modReq] at h
@@ -575,7 +602,7 @@ theorem _root_.Taskpool.FlushOK.modApi {p : Pool} (h : FlushOK p) (a : Nat) (f :
 theorem tame_modApi_of (p : Pool) (m : Nat) (f : Api → Api) (hk : ∀ x, (f x).kind = x.kind)
     (hfok : FlushOK p → FlushOK (p.modApi m f)) : Tame p (p.modApi m f) := by
   refine ⟨⟨rfl, rfl, rfl, rfl, rfl, rfl, rfl, fun h => h, List.Sublist.refl _, fun _ tk' h => ⟨tk', h, rfl⟩, ?_,
-    hfok⟩, Nat.le_refl _, fun _ r' h => Or.inl ⟨r', h, MSigLe.refl r'⟩⟩
+    hfok, fun h => h.of_eq rfl rfl, rfl⟩, Nat.le_refl _, fun _ r' h => Or.inl ⟨r', h, MSigLe.refl r'⟩⟩
   simp only [modApi]
   apply List.ext_getElem?
   intro i
@@ -621,7 +648,7 @@ theorem tame_modGather (p : Pool) (g : Nat) (f : Gather → Gather) (hc : ∀ G,
     (ho : ∀ G, p.gathers[g]? = some G → (f G).outer = some .ok →
         G.outer = some .ok ∨ ∀ t, Child.task t ∈ G.children → TaskFin p t) : Tame p (p.modGather g f) :=
   ⟨⟨rfl, rfl, rfl, rfl, rfl, rfl, rfl, fun h => h, List.Sublist.refl _, fun _ tk' h => ⟨tk', h, rfl⟩, rfl,
-    fun h => h.modGather g f hc ho⟩, Nat.le_refl _, fun _ r' h => Or.inl ⟨r', h, MSigLe.refl r'⟩⟩
+    fun h => h.modGather g f hc ho, fun h => h.of_eq rfl rfl, rfl⟩, Nat.le_refl _, fun _ r' h => Or.inl ⟨r', h, MSigLe.refl r'⟩⟩
 
 theorem tame_emitRef (p : Pool) (r) : Tame p (p.emitRef r) := tame_of_eq _ _ rfl rfl
 theorem tame_logEv (p : Pool) (r) : Tame p (p.logEv r) := tame_of_eq _ _ rfl rfl
@@ -680,7 +707,15 @@ theorem grantsL_cancelWaiterL (m : Nat) (ws : List Waiter) : grantsL (cancelWait
 theorem tame_cancelPoolWaiter (p : Pool) (m : Nat) :
     Tame p ({ p with sem := { p.sem with waiters := cancelWaiterL m p.sem.waiters } } : Pool) :=
   ⟨⟨rfl, grantsL_cancelWaiterL m _, rfl, rfl, rfl, rfl, rfl, fun h => by simp [h, cancelWaiterL], List.Sublist.refl _,
-   fun _ tk' h => ⟨tk', h, rfl⟩, rfl, fun h => h.of_soft rfl rfl rfl (fun _ tk' h => ⟨tk', h, rfl⟩)⟩, Nat.le_refl _,
+   fun _ tk' h => ⟨tk', h, rfl⟩, rfl, fun h => h.of_soft rfl rfl rfl (fun _ tk' h => ⟨tk', h, rfl⟩),
+   fun h a v b c d w hw hp => by
+     have hg := grantsL_cancelWaiterL m p.sem.waiters
+     simp only [cancelWaiterL, List.mem_map] at hw
+     obtain ⟨w0, hw0, rfl⟩ := hw
+     have := h a v b c (by rw [← hg]; exact d) w0 hw0
+     split at hp
+     · cases hp
+     · exact this hp, rfl⟩, Nat.le_refl _,
    fun _ r' h => Or.inl ⟨r', h, MSigLe.refl r'⟩⟩
 
 theorem tame_metaCancel (p : Pool) (m) : Tame p (p.metaCancel m) := by
